@@ -266,6 +266,8 @@ class DtypeEnv(object):
     def _strlist(self, e, depth=0):
         if isinstance(e, ast.Name) and e.id in self.b and depth < 5:
             return self._strlist(self.b[e.id], depth + 1)       # a named list of field names
+        if isinstance(e, ast.BinOp) and isinstance(e.op, ast.Add) and depth < 8:
+            return self._strlist(e.left, depth + 1) + self._strlist(e.right, depth + 1)
         if isinstance(e, (ast.List, ast.Tuple)):
             return [const_str(x) if const_str(x) is not None else norm(x) for x in e.elts]
         raise AnalysisError('names list not literal: %s' % norm(e)[:60])
@@ -273,6 +275,8 @@ class DtypeEnv(object):
     def _exprlist(self, e, depth=0):
         if isinstance(e, ast.Name) and e.id in self.b and depth < 5:
             return self._exprlist(self.b[e.id], depth + 1)
+        if isinstance(e, ast.BinOp) and isinstance(e.op, ast.Add) and depth < 8:
+            return self._exprlist(e.left, depth + 1) + self._exprlist(e.right, depth + 1)       # concatenated format lists
         if isinstance(e, (ast.List, ast.Tuple)):
             return list(e.elts)
         if isinstance(e, ast.Call) and isinstance(e.func, ast.Attribute) and e.func.attr == 'split' and const_str(e.func.value) is not None:
